@@ -197,8 +197,10 @@ class Ctx:
             return
         w = min(workers or self.workers, len(chunks))
         if w <= 1:
+            # still in a forked child: the runner process itself never executes library code after set-up, so that replays (forked
+            # from it later) start from the same process image as the workers did
             for c in chunks:
-                self.merge(fn(c), label, origin=(fn, c))
+                self.merge(run_in_fresh_fork(fn, c), label, origin=(fn, c))
             return
         import multiprocessing as mp
 
